@@ -277,6 +277,11 @@ pub fn parse_file_internal(context: &ParseContext) -> Result<(), Error> {
         );
     }
 
+    // opening a file costs about as much as reading some dozen lines
+    common_context
+        .lines
+        .set(common_context.lines.get() + FILE_AS_LINES);
+
     let mut file = match File::open(&current_path) {
         Ok(file) => file,
         Err(err) => bail!(
@@ -338,6 +343,12 @@ pub enum NextItem {
     EndMacro,
     EndFile,
 }
+
+/// How many lines one build reads, included files and expanded macro bodies counted each time
+/// they are read
+pub const MAX_LINES: usize = 2 * 1024 * 1024;
+/// What a file that is read counts for in that budget
+const FILE_AS_LINES: usize = 32;
 
 /// The grammar recurses once per nested parenthesis or prefix operator
 const MAX_NESTING: usize = 64;
@@ -526,6 +537,8 @@ fn skip<'a>(
                 context.macros.macroses.borrow_mut().insert(name, items);
             } else {
                 while let Some((num, line)) = iter.next() {
+                    let lines = &context.common_context.lines;
+                    lines.set(lines.get() + 1);
                     #[cfg(feature = "verif")]
                     let handed_back = std::cell::Cell::new(false);
                     #[cfg(feature = "verif")]
@@ -613,6 +626,17 @@ pub fn parse_iter<'a>(
         if let Some((line_num, line)) = skip(iter, context, next_item, &mut pending_elif) {
             next_item = NextItem::NewLine; // clear conditional flag to typical state
             let line_num = line_num + 1;
+            // whatever the lines come from - files including files again and again, macro bodies
+            // including files - a build reads a bounded number of them
+            let lines = &context.common_context.lines;
+            lines.set(lines.get() + 1);
+            if lines.get() > MAX_LINES {
+                bail!(
+                    "more than {} lines read at {}",
+                    MAX_LINES,
+                    CodePoint { line_num, num: 1 }
+                );
+            }
             if nested_too_deep(line) {
                 bail!(
                     "failed to parse {}: expression nested deeper than {} levels",
